@@ -134,7 +134,14 @@ def scn(sym, cov, kind, n, modes, cancel=None, native=False, fast=False, eager=F
                     with CancelScope(shield=True):
                         cov.hit("cleanup-acquire-while-cancelled", scope.cancel_called)
                         waiting.append(i)
-                        await prim.acquire()
+                        try:
+                            await prim.acquire()
+                        except BaseException:
+                            # (only a native Task.cancel() gets through the shield)
+                            if i in waiting:
+                                waiting.remove(i)
+                            outcome[(i, 0)] = "cancelled"
+                            raise
                         on_grant(i, 0)
                         outcome[(i, 0)] = "got"
                         try:
